@@ -138,19 +138,24 @@ def encoder_clause(chk, F, roles):
     guarded(chk, key2, 'encoder table', ev2)
 
 
-def inversion_clause(chk, F, roles):
+def inversion_clause(chk, F, roles, channels=(0,)):
+    model, spec, P0, allp = scanners.product(F, 'cc14')
+    for k in channels:
+        _inversion_on_channel(chk, F, roles, model, allp[k], k)
+
+
+def _inversion_on_channel(chk, F, roles, model, P, k):
     cfg = F.cfg
-    model, spec, P, allp = scanners.product(F, 'cc14')
     n = 0
     for key in P.order:
         cs, ss, cons0, label = P.pairs[key]
-        okey = '%s/inversion/%s/from-%s' % (PID, cfg, A.spec_shape(ss))
+        okey = '%s/inversion/%s/from-%s%s' % (PID, cfg, A.spec_shape(ss), '/channel-%d' % k if k else '')
 
-        def ev(cs=cs, cons0=cons0, okey=okey):
+        def ev(cs=cs, cons0=cons0, okey=okey, k=k):
             cons = dict(cons0)
-            cons.update({CH: VS.one(0), MSB: VS(0, 31), VAL: VS(0, 16383)})
+            cons.update({CH: VS.one(k), MSB: VS(0, 31), VAL: VS(0, 16383)})
             msgs = encoder_terms(cons)
-            paths = seq.run_sequence(F, model, P.roles, cs, cons, [('feed',) + msgs[0], ('feed',) + msgs[1]])
+            paths = seq.run_sequence(F, model, P.roles, cs, cons, [('feed',) + msgs[0], ('feed',) + msgs[1]], k=k)
             status, why = 'proved', ''
             if not paths:
                 status, why = 'unproven', 'no path'
@@ -238,7 +243,7 @@ def run(tier, cmd):
         new_clause(chk, F, roles)
         encoder_clause(chk, F, roles)
         shorthand_clause(chk, F, roles)
-        guarded(chk, '%s/inversion/%s' % (PID, cfg), 'encoder/scanner composition', lambda F=F: inversion_clause(chk, F, roles))
+        guarded(chk, '%s/inversion/%s' % (PID, cfg), 'encoder/scanner composition', lambda F=F: inversion_clause(chk, F, roles, range(16) if tier == 'thorough' else (0,)))
         guarded(chk, '%s/invariant/%s' % (PID, cfg), 'struct invariant at construction site',
                 lambda F=F: c09.invariant_clause(chk, F, CC14, 'ControlChange14BitMessage'))
     return chk.finish()
